@@ -30,6 +30,9 @@ def obligations(tier):
            'comments (at column 0 or indented by spaces / a tab), blank lines (empty or spaces / tabs; before sections and between data rows), leading spaces, column separator widths, '
            'values per wrapped line, cell vocabulary incl. unparseable tokens; header values typed (signed integers, floats, yes/no, text)',
            fns, harness='C09_las', func='las_layouts_q' if q else 'las_layouts', timeout=280 if q else 2400, parts=16),
+        Ob('lenient_reading_repeated_curves', 'ch', 'lenient reading (raise_on_error=False) of LAS 2.0 files whose curve section repeats mnemonics (5 patterns of 4..7 curves, 0..2 repeated, repeats adjacent or apart), '
+           '1..3 frames, wrapped (1..3 values per line) or not: one channel per distinct curve, in order, holding its own column; without repeats lenient = strict',
+           ['LASRead.LASSectionArray.__init__/finalise (_duplicate_column_indexes)', 'LASRead.LASRead'], harness='C09_las', func='lenient_repeated_curves', timeout=170 if q else 600),
         Ob('section_line_fields', 'ch', 'mnemonic of 1..2 characters over {A,z,0,_}, unit of 0..2 characters over {A,z,0,.}, 12 value spellings, 0..2 spaces around the delimiters',
            ['LASRead.line_to_sect_line', 'LASRead.string_to_value', 'LASRead.RE_LINE_FIELD_0/RE_LINE_FIELD_1'], harness='C09_las', func='sect_line_chars', timeout=280 if q else 900, parts=36),
     ]
